@@ -147,7 +147,7 @@ func (r *rewriter) rewriteSelect(n *ast.SelectStmt) ast.Stmt {
 		case *ast.SendStmt:
 			ch, v := r.fresh("c"), r.fresh("s")
 			pre = append(pre, &ast.AssignStmt{Lhs: []ast.Expr{ch, v}, Tok: token.DEFINE, Rhs: []ast.Expr{r.subExpr(st.Chan), r.subExpr(st.Value)}})
-			cases = append(cases, call(sel("sched", "SendCase"), ch, v))
+			cases = append(cases, call(call(sel("sched", "SendCaseTo"), ch), v))
 		case *ast.ExprStmt:
 			u := st.X.(*ast.UnaryExpr)
 			ch := r.fresh("c")
@@ -226,7 +226,7 @@ func (r *rewriter) post(c *astutil.Cursor) bool {
 		if r.modes["sched"] {
 			r.needSched = true
 			r.counts["send"]++
-			c.Replace(&ast.ExprStmt{X: call(sel("sched", "Send"), n.Chan, n.Value)})
+			c.Replace(&ast.ExprStmt{X: call(call(sel("sched", "SendTo"), n.Chan), n.Value)})
 		}
 	case *ast.UnaryExpr:
 		if r.modes["sched"] && n.Op == token.ARROW {
